@@ -5,6 +5,7 @@ package main
 
 import (
 	"bytes"
+	"context"
 	"fmt"
 	"os"
 	"os/exec"
@@ -12,6 +13,7 @@ import (
 	"regexp"
 	"strconv"
 	"strings"
+	"time"
 )
 
 var c13OldDoc = []byte(`{"k":{"secret":{"Value":"b2xk","Version":1},"lastAccess":"1000"}}`)
@@ -182,13 +184,15 @@ func c13Strace(dir string, docN int, inject string) (calls []c13Sys, status int,
 		args = append(args, "-e", "inject="+inject)
 	}
 	args = append(args, self, "c13child", "-work", live, "-n", fmt.Sprint(docN))
-	cmd := exec.Command("strace", args...)
+	ctx, cancel := context.WithTimeout(context.Background(), 60*time.Second)
+	defer cancel()
+	cmd := exec.CommandContext(ctx, "strace", args...)
 	cmd.Env = append(os.Environ(), "GOMAXPROCS=1")
 	var stderr bytes.Buffer
 	cmd.Stderr = &stderr
 	runErr := cmd.Run()
 	status = 0
-	if runErr != nil {
+	if runErr != nil && ctx.Err() == nil {
 		if ee, ok := runErr.(*exec.ExitError); ok {
 			status = ee.ExitCode() // -1 when strace itself was killed by the forwarded signal
 			if status > 128 {
@@ -197,6 +201,9 @@ func c13Strace(dir string, docN int, inject string) (calls []c13Sys, status int,
 		} else {
 			return nil, 0, nil, fmt.Errorf("strace: %v", runErr)
 		}
+	}
+	if ctx.Err() != nil {
+		status = 3 // the write did not finish (watchdog)
 	}
 	tb, rerr := os.ReadFile(tf)
 	if rerr != nil {
@@ -307,7 +314,7 @@ func c13RunTrace(in c13Input, workdir string, idx int) []Record {
 			recs = append(recs, Record{Kind: "inject", Input: in,
 				Obs:        map[string]any{"spec": spec, "status": status, "content": cls, "hit": hit, "ops": text},
 				Key:        "inject:" + spec, Nontrivial: hit, Tags: []string{tag},
-				Coq:        fmt.Sprintf("CInject %s %d %s", coqBool(status == 2), cls, coqList(ops))})
+				Coq:        fmt.Sprintf("CInject %s %d %s", coqBool(status == 2 || status == 3), cls, coqList(ops))})
 		}
 		return recs
 	}
